@@ -381,7 +381,9 @@ func (p *Packer) followExternalLink(root string, path string, hops int) (*extern
 	}
 
 	// Get the absolute path of the symlink target.
-	absTarget := target
+	// The result is cleaned in both cases: the walk of a dereferenced
+	// directory relates the paths it visits to this one textually.
+	absTarget := filepath.Clean(target)
 	if !filepath.IsAbs(absTarget) {
 		absTarget = filepath.Join(filepath.Dir(path), target)
 	}
